@@ -1,6 +1,9 @@
 """C04: a pre-terminal expands to exactly the product of its terminal groups.
 Implementation = PcfgGrammar.create_guesses of /repo (output function swapped
-for a collector), model = Expand.v."""
+for a collector), model = Expand.v.  Markov pre-terminals are additionally
+expanded on generated OMEN models with entries AT the maximum level (levels
+0..13, 20.., on the grammar's one Optimizer) and compared with the independent
+enumerator omen_gen.brute_levels and with Omen.v's generator (markov_exploration)."""
 import itertools
 import json
 
